@@ -48,6 +48,15 @@ CLAIMED.update({
              note=SKEL_NOTE + " The number of callers is abstracted by Go's close/cancel semantics."),
 })
 
+CLAIMED.update({
+ "C12": dict(design="5.2/C12", technique="Coq proof by induction over command histories on the L0 event-loop + renderer + terminal model interpreted from the GENERATED dispatch and start-up call lists (tracker invariant, both cursor-visibility conventions); real Programs: Spec.Modes evaluated in Coq on the mode tokens sampled at every Update, full token stream for main-screen preservation",
+             text="C12_modes_follow_commands / C12_modes_tracked: for every option subset and every finite history of mode commands the terminal's modes equal fold apply cmds (apply_opts o) for both cursor-visibility conventions (any user program); C12_main_untouched / C12_alt_run_main_untouched: a program that starts in the alt screen and never leaves it leaves the main buffer identical. Real runs: all 32 option subsets x random histories (0..30, revisits), modes read from the real output inside Update after each command; K2: the model's mode-token stream equals the real one.",
+             note="Trusted: Coq kernel + vm_compute; goextract (dispatch table, start-up list); Model/VT.v = stated xterm subset; harness. Window title and ANSI compressor outside. No axioms."),
+ "C16": dict(design="5.3/C16", technique="Coq proof (simulation by induction over message histories on the L0 event-loop model interpreted from the GENERATED dispatch table) + tie on the statement order of eventLoop; real Programs with random per-key filter policies: Spec.FilterSpec evaluated in Coq on the real callback log, model = implementation on five observables",
+             text="C16_consulted_once, C16_simulation (the run with a filter is, on model, renderer state, mode output, Update log, spawned commands, side effects and exit decision, the run without filter over the messages the filter returned: nil leaves no trace, a replacement behaves as if sent), C16_at_most_once: for ANY program, filter and history; C16_tie: filter and nil check precede the type switch, handleMessages/Update/hand-off/write follow it. Real runs: random histories over every message kind x drop/replace(any kind)/keep policies; suppressed print lines must not reach the screen.",
+             note="Trusted: Coq kernel; goextract (dispatch table + statement order); harness. One sender (receive order = send order; the concurrent half is C01). No axioms."),
+})
+
 def main():
     here = os.path.dirname(os.path.dirname(os.path.abspath(__file__)))
     props = [json.loads(l) for l in open(os.path.join(here, "properties.jsonl"))]
